@@ -10,14 +10,14 @@ DISTINCT_RULE = (
     "under sweeps of max_trade_count / max_live_trade_count / multi_order_trades / reset_seconds / place_reset_seconds; distinct = "
     "(#trades<=3, #live<=3, multi_order_trades, trade already known) cells at accepted placements plus status paths of trades"
 )
-RULES = ["recount", "trade-status", "limit", "refusal"]
-MINIMA = {"quick": {"rule_recount": 20000, "rule_limit": 3000, "rule_trade-status": 20000}, "thorough": {"rule_recount": 800000}}
+RULES = ["recount", "trade-status", "limit", "refusal", "exchange-truth"]
+MINIMA = {"quick": {"rule_recount": 20000, "rule_limit": 3000, "rule_trade-status": 20000, "rule_exchange-truth": 1000}, "thorough": {"rule_recount": 800000}}
 ASSUMPTIONS = [
     "a trade counts as placed once one of its orders was accepted by place_order(execute=True)",
     "placing a new order inside an already COMPLETE trade is outside the property (a completed trade is final); such trades are skipped",
     "trades flagged pending_orders are outside, as the property says",
 ]
-WEIGHTS = [("hostile", 4), ("fastlat", 3), ("plain", 2), ("multi", 1), ("event", 1), ("recorded", 1)]
+WEIGHTS = [("hostile", 4), ("fastlat", 3), ("plain", 2), ("multi", 1), ("lines", 1), ("event", 1), ("recorded", 1)]
 
 
 def plan(tier, seed):
@@ -78,6 +78,17 @@ def run(desc):
             if m is not None:
                 r.tr.framework = r.w.fw
                 observers.trade_accounting(r.tr, m, "book")
+            if r.final and not (r.restarted and r.replaced):
+                # every response delivered and the exchange's current table processed: the runner is charged with exactly the
+                # trades that still have a live bet AT THE EXCHANGE (the real state of the orders), so a runner whose bets have
+                # all completed there is free again.  (restart + replaced bet is the listed C11 finding.)
+                st, by_sel = c11.exchange_truth(r)
+                for sel, bets in by_sel.items():
+                    r.tr.counters["rule_exchange-truth"] += 1
+                    live_refs = {b["customerOrderRef"] for b in bets if b["status"] != "EXECUTION_COMPLETE"}
+                    ctx = st.get_runner_context(r.mid, sel[0], sel[1])
+                    if ctx.live_trade_count != len(live_refs):
+                        r.tr.violate(PROPERTY, "live-trade-count-differs-from-exchange", {"direction": "leak" if ctx.live_trade_count > len(live_refs) else "under"}, ctx=ctx.live_trade_count, exchange_live=len(live_refs), log=r.log)
 
         r = c11.walk(desc, observe)
         out = O.Out(PROPERTY)
